@@ -8,9 +8,11 @@ import (
 
 var (
 	errPathNotFound = errors.New("path does not exist")
-	setJSONOptions  = &sjson.Options{
-		Optimistic:     true,
-		ReplaceInPlace: true,
+	// ReplaceInPlace is deliberately not used: sjson's in-place path silently leaves the
+	// value unreplaced when the placeholder needs escaping (quotes, non-ASCII) and fits in
+	// the old value's space, and it patches the caller's bytes.
+	setJSONOptions = &sjson.Options{
+		Optimistic: true,
 	}
 )
 
